@@ -95,7 +95,7 @@ fn nontrivial(o: &Outcome) -> bool {
 
 const CLASSES: &[&str] = &["hybridized-enc", "multi-target-mixed-flavours", "hybrid-flavour-observed-after-rekey", "mlkem-binding-probed", "mlkem-dk-needed-probed", "rekeyed", "roundtrip", "multi-target-enc"];
 
-fn hc(thorough: bool) -> HistCheck<'static> {
+pub fn hc(thorough: bool) -> HistCheck<'static> {
     HistCheck {
         focus: "C11",
         profile: profile(thorough),
